@@ -1,5 +1,5 @@
 """Which units and lemmas serve which property (DESIGN §4/§5)."""
-from . import sm
+from . import sm, ps
 
 A_IDEAL = 'A-IDEAL: float/double arithmetic treated as real arithmetic, source literals exact (rounding not modelled)'
 A_SUMCOMM = 'L-SUMCOMM: interchange of finite double sums (column sums = 1 => total conserved) not machine-checked'
@@ -11,7 +11,7 @@ NOT_APPLICABLE = {
     'C11': 'relation between two complete program executions through an HDF5 file; no function contract expresses it (DESIGN §6)',
     'C20': 'behaviour is produced inside boost::program_options; a contract proof would be about an axiomatisation of boost (DESIGN §6)',
 }
-for _p in ('C03 C04 C05 C06 C07 C09 C10 C12 C13 C14 C16 C17 C18 C19').split():
+for _p in ('C03 C04 C05 C06 C07 C10 C12 C13 C14 C16 C17 C18 C19').split():
     NOT_APPLICABLE[_p] = PENDING
 
 SM_KICK = [sm.CalcCoefficiants, sm.UpdateSM, sm.KickMapApply, sm.SourceMapCtor, sm.SourceMapCtor7, sm.KickMapCtor,
@@ -61,6 +61,20 @@ PROPERTIES = {
         'assumptions': [A_IDEAL, A_LIB, DROPS, 'random draws are unconstrained reals', 'HDF5File::appendTracks index obligation is part of C17'],
         'uncovered': ['statistical statement that an ensemble keeps mean and width (consequence of the OU step, not machine-checked)', 'NaN/inf inputs (ideal arithmetic has none)'],
         'explanation': 'posts of KickMap::applyTo and FokkerPlanckMap::applyTo for all four tracking models',
+        'technique': TECH,
+    },
+    'C09': {
+        'units': [ps.RulerCtor, ps.SimpsonWeights, ps.UpdateXProjection, ps.UpdateYProjection, ps.Integrate, ps.Normalize,
+                  ps.Average, ps.Variance, ps.Swap, ps.Assign],
+        'lemmas': [ps.lemmas_normalize],
+        'level': 'proof',
+        'claim': 'normalize scales every cell of bunch n by set/filling (empty buckets to zero) and nothing else; projections are the Simpson-weighted sums; '
+                 'integral, mean, variance and rms of bunch n are the stated sums over bunch n own projection and charge only; swap/assignment carry data and everything '
+                 'derived from it; unbounded in grid size and bunch count, ideal arithmetic',
+        'assumptions': [A_IDEAL, A_LIB, DROPS, 'finite sums are spec functions introduced by unfolding instances of their recursive definitions',
+                        'PhaseSpace constructors (Gaussian start distribution, copy constructor) are not under contract: the copy constructor delegates to the main constructor which recomputes projections and integral by the verified methods'],
+        'uncovered': ['discretisation error of Simpson sums for Gaussians (numerical analysis, not a code property)', 'PhaseSpace constructors'],
+        'explanation': 'functional postconditions with ghost indices over every PhaseSpace method named by the property',
         'technique': TECH,
     },
 }
